@@ -3,5 +3,5 @@ def check(res, thorough):
     return interpprops.check(res, thorough, "C12", "AscaVerif.Props.C12", "c12-spec", "c12.cases", "c12.nontrivial",
         """shorthand vs mechanically produced expansion, both run on the implementation: condensed rules vs their sub-rules in sequence; _,X vs X_ , _X(mirrored); the 9 group letters vs the manual's matrices in input, left and right context; optionals (X), (X,n), (X,m:n) vs the environment set of their explicit repetitions; A B > & vs A=1 B=2 > 2 1 on words without adjacent equal segments; words: all syllabifications over the small inventory (2/3) and random words over the full inventory (1/3)""",
         ["outcomes are compared structurally or by error kind"],
-        extra_ops=[("parse-ops", "parse-ops", 30000)], extra_props=["AscaVerif.Props.C12Parse"])
+        extra_ops=[("parse-ops", "parse-ops", 30000)], extra_props=["AscaVerif.Props.C12Parse", "AscaVerif.Props.C12Meta"])
 replay = interpprops.replay
